@@ -40,3 +40,8 @@ MAIN = dict(name="main.cmd", src="C16/main.c", unwind=6, defines=["printf=verif_
             bounds="command word of <= 3 arbitrary bytes, archive name of 1-2 arbitrary bytes, fopen success/failure, command result arbitrary",
             stubs=["command functions (list/test/extract/print), lha_reader_new/free, lha_input_stream_from_FILE/free, lha_filter_init, fopen/fclose: recording stubs", "exit(): ends the path", "printf (help page): no-op"])
 HARNESSES.append(MAIN)
+HARNESSES.append(dict(name="read.drained", src="C16/read.c", entry="harness_leadin_drained", defines=["BL=30"], unwind=34, unwindset={"skip_sfx.0": 1, "skip_sfx.1": 1},
+                      units=["lib/lha_input_stream.c:lha_input_stream_read,empty_leadin"], timeout=300, mem_gb=4,
+                      bounds="arbitrary lead-in buffer content and fill (0..full), two reads of 22 and 2 bytes", stubs=["source read callback: end of data", "memmove/memcpy: byte loops"]))
+HARNESSES.append(dict(name="skip.seek", src="C16/skip.c", entry="harness_seek", unwind=6, units=["lib/lha_input_stream.c:file_source_skip"], timeout=120, mem_gb=4,
+                      bounds="any position/length (< 2^40), any skip distance 0..2^32-1 on a seekable stream", stubs=["FILE: (position, length, seekable, eof) model"]))
